@@ -188,7 +188,7 @@ let rec tree_text (n : M.node) : string =
   match n with
   | M.Node (o, ch) -> "(" ^ String.concat " " (op_text o :: List.map tree_text ch) ^ ")"
 
-let n_text (n : M.n) = string_of_int (int_of_n n)
+let n_text (n : M.n) = match n with M.N0 -> "0" | M.Npos p -> Printf.sprintf "%Lu" (u64_of_pos p)
 
 let error_text (e : M.error) : string =
   let v = value_text in
@@ -564,6 +564,9 @@ let run_hand (text : string) : string =
     (outcome_text value_text ro) (logtext rolog) (outcome_text value_text mt) (String.concat "," vars) (logtext mtlog) ops ops
     (strs (M.iter_identifiers n)) (strs (M.iter_variable_identifiers n)) (hex_of_str (M.node_fmt fmt_oracle n))
 
+(* 2^64 - 1 as a Coq N: n_of_int cannot take it on a 63-bit OCaml int *)
+let usize_max : M.n = M.Npos (pos_of_u64 (-1L))
+
 let run_val (text : string) : string =
   let v = parse_value text in
   let b x = if x then "1" else "0" in
@@ -581,6 +584,12 @@ let run_val (text : string) : string =
       "fix2=" ^ r tuple (M.as_fixed_len_tuple v (n_of_int 2));
       "rng13=" ^ r tuple (M.as_ranged_len_tuple v (n_of_int 1) (n_of_int 3));
       "rng00=" ^ r tuple (M.as_ranged_len_tuple v (n_of_int 0) (n_of_int 0));
+      "rng31=" ^ r tuple (M.as_ranged_len_tuple v (n_of_int 3) (n_of_int 1));
+      "rngmax=" ^ r tuple (M.as_ranged_len_tuple v (n_of_int 0) usize_max);
+      "rng25=" ^ r tuple (M.as_ranged_len_tuple v (n_of_int 2) (n_of_int 5));
+      "fix1=" ^ r tuple (M.as_fixed_len_tuple v (n_of_int 1));
+      "fix3=" ^ r tuple (M.as_fixed_len_tuple v (n_of_int 3));
+      "fixmax=" ^ r tuple (M.as_fixed_len_tuple v usize_max);
       "empty=" ^ r (fun () -> "") (M.as_empty v);
       "strfrom=" ^ hex_of_str (M.str_from oracle v);
       "tfs=" ^ r (fun s -> value_text (M.VString s)) (M.try_from_string v);
